@@ -1,7 +1,7 @@
 """E2E engine: the same graphs, histories, reference models and oracles as the SIM engine, but every invocation is
 the real ninja binary (built from /repo's working tree) in a real directory, running the vtool helper as its
 commands.  Covers what only ninja.cc, RealCommandRunner, SubprocessSet, RealDiskInterface and the kernel can show."""
-import json, os, shutil, subprocess, time
+import json, os, shutil, subprocess, tempfile, time
 from . import build, common, graphs, models, simrun
 from .models import key, all_outs
 from .probe import ProbeDied
@@ -17,10 +17,8 @@ class FakeProbe:
         self.n = 0
 
     def newdir(self):
-        self.n += 1
-        d = os.path.join(self.root, "p%d" % self.n)
-        os.makedirs(d)
-        return d
+        # a fresh name every time: a directory a straggler process wrote into after its removal must not collide
+        return tempfile.mkdtemp(prefix="p", dir=self.root)
 
     def rmdir(self, d):
         shutil.rmtree(d, ignore_errors=True)
